@@ -126,6 +126,11 @@ func VH_C05() {
 	rec := &vRec{}
 	lg := New("x").(*logimp).Entry
 	lg.SetWriter(&recW{0, rec}).SetErrorWriter(&recW{0, rec}).SetLevel(TraceLevel).SetColorMode(false)
+	if vParam("rtdebug", 0) == 1 && vBool() {
+		// debug mode switched on after start-up (what SetLevel(DebugLevel) on any logger does):
+		// still a production process
+		New("dbg").SetLevel(DebugLevel)
+	}
 	type want struct {
 		key    string
 		val    string
